@@ -35,7 +35,9 @@ Inductive step :=
 | SFlag (j : N)         (* await the Rust-only event j *)
 | SWake (j : N)         (* signal the Rust-only event j: wake whoever waits for it *)
 | SJoin (k j : N)       (* await operation k and event j concurrently *)
-| SCtx.                 (* observe context slot 0 *)
+| SCtx                  (* observe context slot 0 *)
+| SDetach (k : N).      (* start operation k and leak it: its waitable stays registered with the task
+                           although no Rust work waits for it (what a foreign C-ABI client does) *)
 
 Inductive action :=
 | AStart (t : N)                (* start_task(root body of t) *)
@@ -523,6 +525,11 @@ Fixpoint run_steps (e : env) (t : N) (bd : body) (wr : wref) (steps : list step)
       if od && fd then run_steps e t bd wr r w else (w, susp (AwJoin k j od fd) r, false)
   | SCtx :: r =>
       run_steps e t bd wr r (ctx_observe w)
+  | SDetach k :: r =>
+      if negb (op_fresh e k w) then run_steps e t bd wr r w else
+      let (w, rdy) := await_op_full e t k wr w in
+      let w := if rdy then w else upd_task t (fun tk => tk_with_orphans (tk_orphans tk + 1) tk) w in
+      run_steps e t bd wr r w
   end.
 
 Definition poll_body (e : env) (t : N) (bd : body) (wr : wref) (w : world) : world * body * bool :=
